@@ -92,14 +92,39 @@ def nkey(e):
     return ("const", repr(e))
 
 
+def okey(e):
+    """ordered structural key of an operand: x + y and y + x are different operands, and so are x + y and a wrapper
+    around it"""
+    if isinstance(e, p.Expression):
+        import dataclasses
+        parts = []
+        for f in dataclasses.fields(e):
+            v = getattr(e, f.name)
+            parts.append(repr(tuple(okey(c) for c in v)) if isinstance(v, tuple) else repr(okey(v)) if isinstance(v, p.Expression)
+                         else repr(v))
+        return (type(e).__name__, tuple(parts))
+    return ("const", repr(e))
+
+
+def lit_key(e):
+    """the property's literal reading of 'the same operation': same node type and the same operands, where for sums
+    and products the operands may come in another order (but each operand itself must be the same expression)"""
+    if isinstance(e, p.CommonSubexpression):
+        return lit_key(e.child)
+    if isinstance(e, (p.Sum, p.Product)):
+        return (type(e).__name__, tuple(sorted(repr(okey(c)) for c in e.children)))
+    return okey(e)
+
+
 def op_occurrences(exprs):
-    """how often each normalised operation occurs in the input (tree occurrences)"""
+    """-> {recursively normalised key: {literal key: tree occurrences in the input}}"""
     cnt = {}
 
     def walk(e):
         if isinstance(e, OPS):
-            k = repr(nkey(e))
-            cnt[k] = cnt.get(k, 0) + 1
+            g = cnt.setdefault(repr(nkey(e)), {})
+            lk = repr(lit_key(e))
+            g[lk] = g.get(lk, 0) + 1
         for c in children_of(e):
             walk(c)
     for e in exprs:
@@ -162,7 +187,10 @@ def check_list(spec, tier, twin=False):
         if has_nested_cse(t):
             viol("nested-wrapper", f"tagged {t!r} has a wrapper directly around a wrapper")
     occ = op_occurrences(exprs)
-    repeated = {k for k, c in occ.items() if c > 1}
+    # an operation that occurred more than once (literal reading) may be performed once only; operations that are the same
+    # only after re-ordering operands INSIDE their operands are not required to be shared, so each literal variant may
+    # be performed once
+    repeated = {k: len(g) for k, g in occ.items() if any(c > 1 for c in g.values())}
 
     env = {n: sym.var(n, "int")[0] for n in ("x", "y", "z")}
     env["f"] = sym.UF("f", "int")
@@ -214,10 +242,10 @@ def check_list(spec, tier, twin=False):
             res.path_assertions += 1
             import collections
             done = collections.Counter(log)
-            over = [k for k in repeated if done.get(k, 0) > 1]
+            over = [k for k, allowed in repeated.items() if done.get(k, 0) > allowed]
             if over:
                 viol("work-not-shared", f"evaluating the tagged list {[str(t) for t in tagged]} with one evaluator performs "
-                                        f"{over[0]} {done[over[0]]} times")
+                                        f"{over[0]} {done[over[0]]} times (it occurs in {repeated[over[0]]} literal variant(s))")
                 break
     return H.finish(res, [ex.stats], q)
 
